@@ -5,6 +5,7 @@ import (
 	"math"
 	"strconv"
 	"strings"
+	"sync"
 
 	"github.com/goose-lang/goose/machine"
 
@@ -49,6 +50,23 @@ func encGen(seed uint64, tier string) {
 		proto.Reply("put32 %s %d", proto.Hex(b), uint32(boundary64(r)))
 		proto.Reply("get64 %s", proto.Hex(b))
 		proto.Reply("get32 %s", proto.Hex(b))
+	}
+	// every power of two and its neighbours, into used buffers of exact and larger size; nil buffers; concurrent callers
+	for k := uint(0); k < 64; k++ {
+		for _, d := range []uint64{^uint64(0), 0, 1} { // 2^k - 1, 2^k, 2^k + 1
+			v := uint64(1)<<k + d
+			proto.Reply("put64 %s %d", proto.Hex(r.Bytes(8+r.Intn(3))), v)
+			if v < 1<<32 {
+				proto.Reply("put32 %s %d", proto.Hex(r.Bytes(4+r.Intn(3))), v)
+			}
+		}
+	}
+	proto.Reply("get64 nil")
+	proto.Reply("get32 nil")
+	proto.Reply("put64 nil 5")
+	proto.Reply("put32 nil 5")
+	for c := 0; c < 3; c++ {
+		proto.Reply("conc 8 %d %d", 20000, r.Intn(1000))
 	}
 	for i := 0; i < n; i++ {
 		l := r.Intn(17)
@@ -286,6 +304,23 @@ func encOne(w []string) string {
 		}
 		return guard(func() string { return mapclearOne(w[1], n, sd) })
 	}
+	if w[0] == "conc" {
+		// conc <goroutines> <iterations> <seed>: concurrent callers on PRIVATE buffers must not disturb each other
+		if len(w) != 4 {
+			return "bad-op"
+		}
+		g, e1 := strconv.Atoi(w[1])
+		it, e2 := strconv.Atoi(w[2])
+		sd, e3 := strconv.Atoi(w[3])
+		if e1 != nil || e2 != nil || e3 != nil {
+			return "bad-op"
+		}
+		return concPutGet(g, it, uint64(sd))
+	}
+	if w[1] == "nil" {
+		// a nil slice (length 0, no backing array): refused like every other buffer that is too short
+		return encBuf(w, nil)
+	}
 	raw, err := proto.Unhex(w[1])
 	if err != nil {
 		return "bad-op"
@@ -310,6 +345,46 @@ func encOne(w []string) string {
 		return "wrote-outside-buffer " + proto.Hex(big)
 	} else {
 		return r
+	}
+}
+
+func concPutGet(g, it int, seed uint64) string {
+	bad := make(chan string, g)
+	var wg sync.WaitGroup
+	for c := 0; c < g; c++ {
+		wg.Add(1)
+		go func(c int) {
+			defer wg.Done()
+			defer func() {
+				if e := recover(); e != nil {
+					bad <- fmt.Sprintf("panic in goroutine %d: %v", c, e)
+				}
+			}()
+			r := proto.NewRng(seed + uint64(c)*7919)
+			b8 := make([]byte, 8)
+			b4 := make([]byte, 4)
+			for i := 0; i < it; i++ {
+				v := r.U64()
+				machine.UInt64Put(b8, v)
+				if got := machine.UInt64Get(b8); got != v {
+					bad <- fmt.Sprintf("mismatch goroutine %d: put64 %d, get64 %d", c, v, got)
+					return
+				}
+				w := uint32(r.U64())
+				machine.UInt32Put(b4, w)
+				if got := machine.UInt32Get(b4); got != w {
+					bad <- fmt.Sprintf("mismatch goroutine %d: put32 %d, get32 %d", c, w, got)
+					return
+				}
+			}
+		}(c)
+	}
+	wg.Wait()
+	select {
+	case m := <-bad:
+		return m
+	default:
+		return "ok"
 	}
 }
 
